@@ -57,4 +57,10 @@ def run(chk, tier):
             return f"the call did not return normally: {out}"
         return None
     chk.run_family(cfgs, ops, oracle=oracle, cross=True)
+    # the 32-bit fixsliced AES backend (executed through #[path]): dev and release, normal and compact — no `panic:` line,
+    # and every line equals the model (one wrapping model for both profiles)
+    from . import fs32
+    fs32.run(chk, 12 if quick else 400, configs=("default", "release", "compact"), oracle_native=False, roundtrip=False, per_block=False)
+    for cn in ("default", "release", "compact"):
+        pass
     chk.assumptions.append("aborts (allocation failure, stack overflow) cannot be caught in-process; none of the code allocates")
